@@ -116,11 +116,18 @@ func (self Value) GetByPath(pathes ...Path) Value {
 	var err error
 
 	for i, path := range pathes {
+		if desc == nil || !pathFitsType(path.t, tt) || !pathFitsType(path.t, desc.Type()) {
+			return errValue(meta.ErrUnsupportedType, fmt.Sprintf("%dth path %s doesn't fit type %s", i, path, tt), nil)
+		}
 		switch path.t {
 		case PathFieldId:
 			id := path.id()
+			f := desc.Struct().FieldById(id)
+			if f == nil {
+				return errValue(meta.ErrUnknownField, fmt.Sprintf("field id %d is not defined in IDL", id), nil)
+			}
 			tt, start, err = searchFieldId(&p, id)
-			desc = desc.Struct().FieldById(id).Type()
+			desc = f.Type()
 			isList = tt == thrift.LIST
 		case PathFieldName:
 			id := path.str()
@@ -132,6 +139,7 @@ func (self Value) GetByPath(pathes ...Path) Value {
 			desc = f.Type()
 			isList = tt == thrift.LIST
 		case PathIndex:
+			isList = tt == thrift.LIST
 			tt, start, err = searchIndex(&p, path.int(), isList)
 			desc = desc.Elem()
 		case PathStrKey:
